@@ -247,7 +247,8 @@ class Exec:
             except PathEnd:
                 continue
         self.ctx.paths += npaths
-        if not outcomes and self.emitting:
+        if not outcomes and self.emitting and not any(z3.is_false(z3.simplify(ob.goal)) for ob in self.ctx.obligations):
+            # (a path that ends at an assertion which is literally false in its state is not vacuity: that obligation fails)
             # vacuity guard: every path died as infeasible before a return / raise - contradictory hypotheses (contract or models)
             raise Unsupported(f"no path of {info.qualname} reaches a return or a raise: every path is infeasible under the contract "
                               f"and the models (contradictory hypotheses)")
@@ -1432,7 +1433,43 @@ class Exec:
             raise Unsupported("membership on object")
         raise Unsupported(f"`in` on {type(container).__name__} at {loc_of(fr, node)}")
 
+    def _abstract_comprehension(self, n, env, fr, why):
+        """abstract mode: a comprehension over an uninterpreted iterable is a NEW container that is a deterministic function of the
+        free variables of the comprehension (its element / filter expressions are pure under A-ABSTRACT)"""
+        from .objmodels import abs_value
+        targets = {x.id for g in n.generators for x in ast.walk(g.target) if isinstance(x, ast.Name)}
+        free = sorted({x.id for x in ast.walk(n) if isinstance(x, ast.Name) and isinstance(x.ctx, ast.Load)} - targets)
+        vals = []
+        for nm in free:
+            try:
+                vals.append(self.eval(ast.Name(id=nm, ctx=ast.Load()), env, fr))
+            except Unsupported:
+                raise why
+        r = abs_value(self, "comp:" + ast.unparse(n), vals, {})
+        r.ghost["fresh_alloc"] = True
+        return r
+
     def ev_ListComp(self, n, env, fr):
+        if self.abstract:
+            try:
+                return self._ev_ListComp(n, env, fr)
+            except Unsupported as e:
+                if "iterable" in str(e) or "iteration over" in str(e):
+                    return self._abstract_comprehension(n, env, fr, e)
+                raise
+        return self._ev_ListComp(n, env, fr)
+
+    def ev_DictComp(self, n, env, fr):
+        if self.abstract:
+            try:
+                return self._ev_DictComp(n, env, fr)
+            except Unsupported as e:
+                if "iterable" in str(e) or "iteration over" in str(e):
+                    return self._abstract_comprehension(n, env, fr, e)
+                raise
+        return self._ev_DictComp(n, env, fr)
+
+    def _ev_ListComp(self, n, env, fr):
         if len(n.generators) != 1:
             raise Unsupported("nested comprehension")
         g = n.generators[0]
@@ -1479,7 +1516,7 @@ class Exec:
 
     ev_GeneratorExp = ev_ListComp
 
-    def ev_DictComp(self, n, env, fr):
+    def _ev_DictComp(self, n, env, fr):
         if len(n.generators) != 1:
             raise Unsupported("nested comprehension")
         g = n.generators[0]
@@ -2052,6 +2089,10 @@ class Exec:
         if isinstance(fn, Opaque) and fn.ghost.get("bound"):
             b, name = fn.ghost["bound"]
             return self.call_method(b, name, args, kwargs, n, env, fr)
+        if isinstance(fn, Opaque) and self.abstract:
+            # an uninterpreted callable (e.g. np.vectorize(f)): its result is a deterministic function of the callable and its arguments
+            from .objmodels import abs_value
+            return abs_value(self, "lib:call", [fn] + list(args), kwargs)
         raise Unsupported(f"call of {type(fn).__name__} at {loc_of(fr, n)}")
 
     def call_method(self, obj, name, args, kwargs, n, env, fr):
